@@ -403,6 +403,12 @@ PROPS = {
                                          "--gen2-every", "9"], quick=4, thorough=60),
               # group commits with a slow leader: followers' acknowledgements vs the leader's append
               dict(driver="crash", args=["--nops", "40", "--threads", "3", "--jitter", "400"],
+                   quick=4, thorough=80),
+              # the worker is slow exactly while it appends to the manifest (its mutex released):
+              # rotations and writes fall into the installation of flushes and compactions
+              dict(driver="crash", args=["--nops", "50", "--threads", "3", "--profile", "fill",
+                                         "--compact-bias", "1", "--jitter", "900", "--jitter-point",
+                                         "manifest_before_append", "--jitter-us", "3000"],
                    quick=4, thorough=80)]),
     "C08": dict(
         # (the big configuration, about an hour, is part of C02's thorough tier only)
